@@ -1152,6 +1152,28 @@ func main() {
 	}
 	w("]\n\n")
 
+	// package-level state
+	w("/-- package-level `var`s of the packages Write / Read / Process of the UDP packs run through -/\n")
+	w("def pkgVars : List (String × List String) := [\n")
+	var allRefs []string
+	for i, dir := range stateDirs {
+		vars, refs := stateScan(*repo, dir)
+		var vs []string
+		for _, v := range vars {
+			vs = append(vs, lstr(v))
+		}
+		sep := ","
+		if i == len(stateDirs)-1 {
+			sep = ""
+		}
+		w("  (%s, [%s])%s\n", lstr(dir), strings.Join(vs, ", "), sep)
+		for _, r := range refs {
+			allRefs = append(allRefs, fmt.Sprintf("  (%s, %s, %s, %s)", lstr(dir), lstr(r[0]), lstr(r[1]), lstr(r[2])))
+		}
+	}
+	w("]\n\n/-- (package, function, kind, variable): how each function mentions package-level variables\n    (r read, m method called on it, a passed as argument, w written / sliced / address taken) -/\n")
+	w("def stateRefs : List (String × String × String × String) := [\n%s\n]\n\n", strings.Join(allRefs, ",\n"))
+
 	w("/-- statements of Clear / New / CreatePack / ClosePack the translator did not understand -/\n")
 	w("def untranslated : List String := [")
 	for i, x := range bad {
